@@ -220,3 +220,35 @@ Theorem C04_state_space_py_lumping_single_locus_unbounded :
               (levents1 (length config) x).
 Proof. exact source_lumping_single_locus_unbounded. Qed.
 Print Assumptions C04_state_space_py_lumping_single_locus_unbounded.
+
+(* ---- the SOURCE of the initial distribution (LineageConfig._get_initial_states, LocusConfig._get_initial_states, StateSpace.alpha;
+   translated on every run by translate/configs2coq.py into gen/ConfigsGen.v) is the model's alpha_vec, a probability vector carried
+   by the states that match the sample configuration and the initial linkage ---- *)
+From PG Require Import gen.NpState gen.NpConfigs gen.ConfigsGen proofs.GenConfigsEquiv.
+Theorem C04_lineage_py_initial_states_is_the_model : forall (cfg : list nat) (s : state),
+  LineageConfig_get_initial_states cfg s = b2n (matches_config cfg s).
+Proof. exact gen_lineage_initial_states_eq. Qed.
+Theorem C04_locus_py_initial_states_is_the_model : forall (nl u n : nat) (s : state),
+  n_loci s = nl -> length (lnk s) = length (lin s) ->
+  LocusConfig_get_initial_states (Z.of_nat nl) (Z.of_nat u) n s = b2n (matches_linkage (n - u) s).
+Proof. exact gen_locus_initial_states_eq. Qed.
+Theorem C04_state_space_py_alpha_is_the_model : forall (cfg : list nat) (nl u : nat) (states : list state),
+  (forall s, In s states -> n_loci s = nl /\ length (lnk s) = length (lin s)) ->
+  StateSpace_alpha OpsR cfg (Z.of_nat nl) (Z.of_nat u) (sum_nat cfg) states = alpha_vec OpsR cfg u states.
+Proof. exact gen_alpha_eq_R. Qed.
+Theorem C04_state_space_py_alpha_sums_to_one : forall (cfg : list nat) (nl u : nat) (states : list state),
+  (forall s, In s states -> n_loci s = nl /\ length (lnk s) = length (lin s)) ->
+  (exists s, In s states /\ matches_config cfg s = true /\ matches_linkage (sum_nat cfg - u) s = true) ->
+  fold_right Rplus 0%R (StateSpace_alpha OpsR cfg (Z.of_nat nl) (Z.of_nat u) (sum_nat cfg) states) = 1%R.
+Proof. exact source_alpha_sums_to_one. Qed.
+Theorem C04_state_space_py_alpha_support : forall (cfg : list nat) (nl u : nat) (states : list state) i,
+  (forall s, In s states -> n_loci s = nl /\ length (lnk s) = length (lin s)) ->
+  (i < length states)%nat ->
+  (matches_config cfg (nth i states (mkState [] [])) && matches_linkage (sum_nat cfg - u) (nth i states (mkState [] [])))%bool = false ->
+  nth i (StateSpace_alpha OpsR cfg (Z.of_nat nl) (Z.of_nat u) (sum_nat cfg) states) 0%R = 0%R.
+Proof. exact source_alpha_support. Qed.
+Print Assumptions C04_lineage_py_initial_states_is_the_model.
+Print Assumptions C04_locus_py_initial_states_is_the_model.
+Print Assumptions C04_state_space_py_alpha_is_the_model.
+Print Assumptions C04_state_space_py_alpha_sums_to_one.
+Print Assumptions C04_state_space_py_alpha_support.
